@@ -173,6 +173,7 @@ package ir
 //@   tags C13 C09
 //@   purefn rm
 //@   traverse remap level ExpressionHandle rm($)
+//@   pure
 //@   nopanic
 //
 //@ func remapRayQueryFunction
@@ -180,6 +181,7 @@ package ir
 //@   tags C13 C09
 //@   purefn rm
 //@   traverse remap fun ExpressionHandle rm($)
+//@   pure
 //@   nopanic
 //
 //@ func remapGatherMode
@@ -187,6 +189,7 @@ package ir
 //@   tags C13 C09
 //@   purefn rm
 //@   traverse remap mode ExpressionHandle rm($)
+//@   pure
 //@   nopanic
 //
 // ---- statement-tree walkers visit every nested block (C13) ------------------------------
@@ -219,24 +222,47 @@ package ir
 //@   tags C13 C09
 //@   ghostcall markStmtExprRefs visitedBlock
 //@   traverse stepmark 1 stmts Block visitedBlock($)
+//@   traverse stepmark 1 stmts ExpressionHandle int($) < len(referenced) ==> referenced[int($)]
+//@   except Kind.StmtEmit Kind.StmtImageAtomic.Fun
+//@   ensures [monotone] forall i int :: 0 <= i && i < len(referenced) && old(referenced[i]) ==> referenced[i]
+//@   loop 1 invariant [monotone] forall i int :: 0 <= i && i < len(referenced) && old(referenced[i]) ==> referenced[i]
+//@   loop 2 invariant [monotone] forall i int :: 0 <= i && i < len(referenced) && old(referenced[i]) ==> referenced[i]
+//@   loop 3 invariant [monotone] forall i int :: 0 <= i && i < len(referenced) && old(referenced[i]) ==> referenced[i]
+//@   loop 3 invariant [args] forall j int :: 0 <= j && j <= rangeindex && j < len(s.Arguments) && int(s.Arguments[j]) < len(referenced) ==> referenced[int(s.Arguments[j])]
+//@   loop 4 invariant [monotone] forall i int :: 0 <= i && i < len(referenced) && old(referenced[i]) ==> referenced[i]
+//@   assigns HA_bool
 //
 //@ func markStmtExprRefsForCompact
 //@   mode bv
 //@   tags C13 C09
 //@   ghostcall markStmtExprRefsForCompact visitedBlock
 //@   traverse stepmark 1 stmts Block visitedBlock($)
+//@   traverse stepmark 1 stmts ExpressionHandle int($) < len(referenced) ==> referenced[int($)]
+//@   except Kind.StmtEmit Kind.StmtImageAtomic.Fun
+//@   ensures [monotone] forall i int :: 0 <= i && i < len(referenced) && old(referenced[i]) ==> referenced[i]
+//@   loop 1 invariant [monotone] forall i int :: 0 <= i && i < len(referenced) && old(referenced[i]) ==> referenced[i]
+//@   loop 2 invariant [monotone] forall i int :: 0 <= i && i < len(referenced) && old(referenced[i]) ==> referenced[i]
+//@   loop 3 invariant [monotone] forall i int :: 0 <= i && i < len(referenced) && old(referenced[i]) ==> referenced[i]
+//@   loop 3 invariant [args] forall j int :: 0 <= j && j <= rangeindex && j < len(s.Arguments) && int(s.Arguments[j]) < len(referenced) ==> referenced[int(s.Arguments[j])]
+//@   assigns HA_bool
 //
 //@ func remapStmtExprHandles
 //@   mode bv
 //@   tags C13 C09
 //@   ghostcall remapStmtExprHandles visitedBlock
 //@   traverse stepmark 1 stmts Block visitedBlock($)
+//@   traverse stepremap 1 stmts ExpressionHandle rmh(remap, $)
+//@   except Kind.StmtImageAtomic.Fun Kind.StmtCall.Arguments
+//@   assigns HA_Statement, HA_ExpressionHandle, HA_SwitchCase, H_ExpressionHandle
 //
 //@ func remapBlockHandles
 //@   mode bv
 //@   tags C13 C14
 //@   ghostcall remapBlockHandles visitedBlock
 //@   traverse stepmark 1 block Block visitedBlock($)
+//@   traverse stepremap 1 block ExpressionHandle rmh(handleMap, $)
+//@   except Kind.StmtCall.Arguments Kind.StmtImageAtomic.Fun
+//@   assigns HA_Statement, HA_ExpressionHandle, HA_SwitchCase, H_ExpressionHandle
 //
 //
 // The inliner rebuilds the statements whose nested blocks changed; a rebuilt
